@@ -3416,7 +3416,9 @@ func (s *TreeShapeListener) EnterImport_stmt(ctx *parser.Import_stmtContext) {
 			}
 
 			// if it's a relative path but reader will think its remote then add ./
-			if base == "." && filename[:1] != "." && (&remotefs.RemoteFs{}).IsRemote(filename) {
+			// (whatever directory the importing file is in: x.y/a/b/c.sysl importing its sibling d
+			// gives x.y/a/b/d.sysl, which looks just as remote as an import of x.y/a/b/d from the root)
+			if filename[:1] != "." && (&remotefs.RemoteFs{}).IsRemote(filename) {
 				filename = "./" + filename
 			}
 		}
